@@ -14,7 +14,7 @@ FORBIDDEN = re.compile(r'\b(sorry|admit|native_decide|bv_decide|implemented_by)\
 TRUSTED_BASE = [
     "Lean 4.33.0 kernel (thorough tier: compiled .olean files re-checked by leanchecker)",
     "axioms used by the headline theorems, as printed by `#print axioms` on this run (must be a subset of propext, Classical.choice, Quot.sound; no native_decide, no bv_decide, no sorry)",
-    "hand-written Lean model of the code (lean/MqttVerif/Model/*): tied to /repo only through the correspondence check of this run (differential execution of the real code and the compiled model on generated inputs) and through harness/gen_config.py, which regenerates Generated/Config.lean (constants, dispatch matrix) from the current source",
+    "hand-written Lean model of the code (lean/MqttVerif/Model/*): tied to /repo only through the correspondence check of this run (differential execution of the real code and the compiled model on generated inputs) and through harness/gen_config.py, which regenerates Generated/Config.lean (constants, dispatch matrix) and Generated/AddrScan.lean (AST scan: per-address dictionary accesses keyed / not keyed by self.addr) from the current source",
     "Lean compiler/runtime for the executable use of the model (line-protocol driver)",
     "harness: virtual reactor (task.Clock subclass on a 2^-20 s grid), logging transport, canonicalisation of observations, generators",
     "modelled, not verified: Twisted (Deferred, DelayedCall, LoopingCall, Protocol), CPython (bytearray, str codecs, dict order, int arithmetic), random.random as an arbitrary value in [0,1)",
